@@ -57,8 +57,11 @@ func addrIdx(a string) int {
 			return i
 		}
 	}
-	if a == "meta:1" || a == "meta:2" {
+	if a == "meta:1" {
 		return 9
+	}
+	if a == "meta:2" {
+		return 10
 	}
 	return 8
 }
